@@ -61,14 +61,17 @@ P = {
          "not decided; the class tables of handler functions and the inverse-pair table are frozen in the checker (unknown handlers are undecided).",
          "§3 C06"),
  "C07": (True,
-         "compiler BCE residual + custom linear bounds prover (Fourier-Motzkin over dominating facts, phi induction, store forwarding, call-site facts) + panic/assertion/goroutine/reflect-kind rules on SSA",
+         "compiler BCE residual + custom linear bounds prover (Fourier-Motzkin over dominating facts, phi induction, store forwarding, call-site facts) + panic/assertion/goroutine rules + reflect precondition analysis (kind guards, addressability facts with parameter contracts, type agreement) on SSA",
          "Decides, for the current tree, that every program point that can panic is guarded on every path: the index/slice operations the compiler's "
          "sound prove pass cannot discharge (its -d=ssa/check_bce report, ~45 sites) are each proved in bounds by the checker's linear prover or carry "
          "a reasoned, count-capped exception (lexer/parser protocol); every idx-derived allocation is bounded; every explicit panic is dead or behind "
          "Must*/init; every single-result type assertion has its dynamic type fixed by a dominating reflect test or by what its producers can return; "
-         "parseSplice always drains the lexer and the lexer always closes its channels; IsNil is only called on nil-able kinds. One known finding "
-         "(uncapped API index). Totality over all inputs is a runtime claim; decided is the guarding of each panic point. Third-party decoders, "
-         "stack depth, parser-loop termination and reflect kind preconditions other than IsNil are not decided.",
+         "parseSplice always drains the lexer and the lexer always closes its channels; IsNil is only called on nil-able kinds; every reflect "
+         "Set*/Addr receiver is addressable (by construction, under CanSet/CanAddr, or by a parameter contract checked at every call site: a "
+         "six-fact abstract domain over expression normal forms); every value a primitive converter returns for a destination type was "
+         "converted to it and map keys to the key type. One known finding (uncapped API index). Totality over all inputs is a runtime claim; "
+         "decided is the guarding of each panic point. Third-party decoders, stack depth, parser-loop termination and the remaining reflect "
+         "kind preconditions (Elem, NumField, Len, Index, MapKeys, ...) are not decided.",
          TRUST + "The Go compiler's prove pass is trusted for the bounds checks it eliminates.",
          "§3 C07, appendix B E3"),
  "C08": (True,
